@@ -23,6 +23,9 @@ type c02One struct {
 	// Pre names what was done on the connection before the handshake: "" |
 	// "guid" (Get System GUID) | "caps" (Get Channel Authentication Capabilities) | "guid+caps"
 	Pre string `json:",omitempty"`
+	// Mix: 1 or 2 = the integrity algorithm is the next / next but one of {HMAC-SHA1-96,
+	// HMAC-MD5-128, HMAC-SHA256-128} instead of the authentication algorithm's sibling
+	Mix int `json:",omitempty"`
 }
 
 type c02Batch struct {
@@ -51,7 +54,7 @@ func init() {
 					if kg && tier == "quick" && a != int(seed%3) {
 						continue
 					}
-					for _, w := range []string{"creds", "flips", "flips-used-conn", "status", "tag", "trunc", "shorten", "rehandshake"} {
+					for _, w := range []string{"creds", "flips", "flips-used-conn", "status", "tag", "trunc", "shorten", "rehandshake", "understate", "mixed"} {
 						cs = append(cs, ev.MkCase("batch", c02Batch{Auth: a, What: w, KG: kg, Seed: seed}))
 					}
 				}
@@ -84,10 +87,41 @@ func c02Exec(run *ev.Run, c ev.Case) {
 		acLen := map[byte]int{1: 20, 2: 16, 3: 32}[su.Auth]
 		icvLen := refbmc.ICVLen(su.Auth)
 		pre := ""
+		mix := 0
 		one := func(kind string, reply, arg int) {
-			c02Run(run, c02One{Auth: b.Auth, Kind: kind, Reply: reply, Arg: arg, KG: b.KG, Seed: b.Seed, Pre: pre})
+			c02Run(run, c02One{Auth: b.Auth, Kind: kind, Reply: reply, Arg: arg, KG: b.KG, Seed: b.Seed, Pre: pre, Mix: mix})
 		}
 		switch b.What {
+		case "understate":
+			// the session wrapper's length field says less than the datagram carries: the
+			// message, as delimited by its own header, is cut short
+			for reply := 1; reply <= 3; reply++ {
+				for n := 0; n < 40+acLen; n++ {
+					one("understate", reply, n)
+				}
+			}
+		case "mixed":
+			// suites whose integrity algorithm is not the sibling of the authentication
+			// algorithm: the RAKP 4 ICV still has the authentication algorithm's length
+			for mix = 1; mix <= 2; mix++ {
+				one("baseline", 0, 0)
+				one("wrong-password", 0, 0)
+				for n := 0; n < 8+icvLen; n++ {
+					one("shorten", 3, n)
+					one("understate", 3, n)
+					one("trunc", 3, 16+n)
+				}
+				for x := 1; x <= 4; x++ {
+					one("extend", 3, x)
+				}
+				for bit := 8 * 8; bit < (8+icvLen)*8; bit++ {
+					one("flip", 3, bit)
+				}
+				for n := 40; n < 40+acLen; n++ {
+					one("shorten", 2, n)
+				}
+			}
+			mix = 0
 		case "creds":
 			for _, pre = range []string{"", "guid", "caps", "guid+caps"} {
 				one("baseline", 0, 0)
@@ -185,6 +219,9 @@ func c02Run(run *ev.Run, o c02One) {
 	cfg := defaultCfg(r)
 	cfg.Password = []byte("correct horse")
 	su := c02Suites[o.Auth]
+	if o.Mix != 0 {
+		su.Integ = []byte{1, 2, 4}[(o.Auth+o.Mix)%3]
+	}
 	cfg.Suites = []refbmc.Suite{su}
 	if o.KG {
 		cfg.KG = rbytes(r, 20)
@@ -316,6 +353,11 @@ func c02Run(run *ev.Run, o c02One) {
 			}
 			m = m[:16+o.Arg]
 			m[14], m[15] = byte(o.Arg), byte(o.Arg>>8)
+		case "understate":
+			if o.Arg >= len(p) {
+				return reply, nil
+			}
+			m[14], m[15] = byte(o.Arg), byte(o.Arg>>8)
 		case "extend":
 			for i := 0; i < o.Arg; i++ {
 				m = append(m, byte(0x5a+i))
@@ -405,6 +447,9 @@ func c02Run(run *ev.Run, o c02One) {
 	pv, st := safe(func() { sess, err = e.ST.NewV2Session(ctx, opts) })
 	run.Eval(1)
 	desc := fmt.Sprintf("auth alg %d kg=%v mutation %s reply %d arg %d pre %q", su.Auth, o.KG, o.Kind, o.Reply, o.Arg, o.Pre)
+	if o.Mix != 0 {
+		desc += fmt.Sprintf(" suite %v", su)
+	}
 	if pv != nil {
 		run.Violation("C02:panic:"+panicSite(st), fmt.Sprintf("%s: panic %v\n%s", desc, pv, trimStack(st)), cs, nil)
 		return
